@@ -85,7 +85,11 @@ class E2ECheck:
         if self.pid == "C05":
             # loop timeouts that strike mid-run (running / scheduled / unreleased work at the timeout)
             return BASE_MIX + [("greedy", {"tight_timeout": True, "frequencies": [-1, 1, 3, 10, 25]}, 0.15),
-                               ("planner", {"tight_timeout": True}, 0.04)]
+                               ("planner", {"tight_timeout": True}, 0.04),
+                               # sparse arrivals: the cluster drains and sits idle between the invocations of a graph, under a
+                               # streaming loader whose updates come more often than the arrivals
+                               ("greedy", {"release_policies": ["fixed"], "periods": [30, 60, 90], "max_invocations": 4, "max_graphs": 2,
+                                           "flags": {"workload_update_interval": 5}, "p_enforce": 0.0, "p_drop": 0.0}, 0.12)]
         return BASE_MIX
 
     def shards(self, tier, seed):
